@@ -1,7 +1,13 @@
 (* Entry point evaluated by the harness-written case files for C13. *)
 From Coq Require Import NArith List Bool.
-From Verif Require Import Base.Check Model.HaSync Model.HaSyncSpec.
+From Verif Require Import Base.Check Model.HaSyncFields Model.HaSync Model.HaSyncSpec.
 Import ListNotations.
+
+(* records travel in the case files as one number: two bits per field, struct order, least
+   significant first (0 = zero value, 1 / 2 = the driver's two non-zero values, 3 = anything else) *)
+Fixpoint unpack_n (n : nat) (x : N) : rec :=
+  match n with O => [] | S k => N.land x 3 :: unpack_n k (N.shiftr x 2) end.
+Definition U (x : N) : rec := unpack_n nf x.
 
 Definition case := (config * list (op * out))%type.
 Definition run_case (c : case) : list N :=
@@ -61,3 +67,30 @@ Fixpoint run_e2e_from (i : N) (cs : list e2e_case) : list (list N) :=
       end
   end.
 Definition run_e2e_cases (cs : list e2e_case) : list (list N) := run_e2e_from 1%N cs.
+
+(* ---- layout stream: the field list the driver derives by reflection from the compiled
+   ha.SessionState must be the list the Model was generated from (Model/HaSyncFields.v) ---- *)
+From Coq Require Import String.
+Definition kind_eqb (a b : fkind) : bool :=
+  match a, b with
+  | KString, KString | KInt, KInt | KUint, KUint | KBool, KBool | KTime, KTime | KOther, KOther => true
+  | _, _ => false
+  end.
+Definition fspec_eqb (a b : fspec) : bool :=
+  String.eqb (f_name a) (f_name b) && String.eqb (f_json a) (f_json b) && Bool.eqb (f_omit a) (f_omit b)
+  && Bool.eqb (f_ser a) (f_ser b) && kind_eqb (f_kind a) (f_kind b).
+Fixpoint fl_eqb (a b : list fspec) : bool :=
+  match a, b with
+  | [], [] => true
+  | x :: a', y :: b' => fspec_eqb x y && fl_eqb a' b'
+  | _, _ => false
+  end.
+(* a case = (key field, other fields); a difference is reported as a tie-1 mismatch at step 1 *)
+Fixpoint run_layout_from (i : N) (cs : list (fspec * list fspec)) : list (list N) :=
+  match cs with
+  | [] => []
+  | (k, l) :: tl =>
+      if fspec_eqb k key_field && fl_eqb l fields then run_layout_from (i + 1) tl
+      else [i; 1; 0; 0; 0; 0] :: run_layout_from (i + 1) tl
+  end.
+Definition run_layout (cs : list (fspec * list fspec)) : list (list N) := run_layout_from 1%N cs.
